@@ -73,6 +73,19 @@ Fixpoint call (s : stack) (h : hook) (arg : A) (fuel slot passed : nat) : outcom
 Definition invoke (s : stack) (h : hook) (arg : A) (fuel : nat) : outcome :=
   call s h arg fuel 0 0.
 
+(** ** Invocation sites inside the two libraries
+
+    Every in-library call of a hook fetches the top record ([ctx->cb] in
+    libaddrxlat, [addrxlat_ctx_get_cb(ctx->xlatctx)] in libkdumpfile) and
+    calls the function in its slot.  What it passes as [cb] is transcribed per
+    site: [PassSame] = the record whose slot is called, [PassOther p] = some
+    other record (position [p] in the stack), e.g. the dump object's own
+    record [ctx->xlatcb]. *)
+Inductive site_arg := PassSame | PassOther (pos : nat).
+
+Definition invoke_site (s : stack) (h : hook) (arg : A) (fuel : nat) (sa : site_arg) : outcome :=
+  call s h arg fuel 0 (match sa with PassSame => 0 | PassOther p => p end).
+
 (** addrxlat_ctx_add_cb: a new record in front, priv = NULL, all hooks default *)
 Definition add_cb (null : P) (s : stack) : stack :=
   {| l_priv := null; l_hook := fun _ => None |} :: s.
@@ -112,3 +125,25 @@ Fixpoint set_priv (i : nat) (p : P) (s : stack) : stack :=
   end.
 
 End Cb.
+
+(** the call sites of this tree (file:function, hook, what is passed):
+      addrxlat/ctx.c:read_page        ctx->cb->get_page(ctx->cb, ...)
+      addrxlat/ctx.c:do_read32, do_read64, addrxlat_ctx_read... (3 sites)
+                                       ctx->cb->read_caps(ctx->cb)
+      addrxlat/x86_64.c (2 sites)      ctl->ctx->cb->read_caps(ctl->ctx->cb)
+      addrxlat/ctx.c:get_reg           ctx->cb->reg_value(ctx->cb, ...)
+      addrxlat/ctx.c:get_symval        ctx->cb->sym_value(ctx->cb, ...)
+      addrxlat/ctx.c:get_sizeof        ctx->cb->sym_sizeof(ctx->cb, ...)
+      addrxlat/ctx.c:get_offsetof      ctx->cb->sym_offsetof(ctx->cb, ...)
+      addrxlat/ctx.c:get_number        ctx->cb->num_value(ctx->cb, ...)
+      kdumpfile/util.c:get_symbol_val  cb = addrxlat_ctx_get_cb(ctx->xlatctx); cb->sym_value(cb, ...)
+    The check scans the sources for "->hook(" calls and compares with this table. *)
+Definition library_sites : list (hook * site_arg) :=
+  [ (HGetPage, PassSame);
+    (HReadCaps, PassSame); (HReadCaps, PassSame); (HReadCaps, PassSame);
+    (HReadCaps, PassSame); (HReadCaps, PassSame);
+    (HRegValue, PassSame);
+    (HSymValue, PassSame); (HSymValue, PassSame);
+    (HSymSizeof, PassSame);
+    (HSymOffsetof, PassSame);
+    (HNumValue, PassSame) ].
